@@ -252,6 +252,10 @@ fn exec_read(
     let Some(path) = fs.open_handles.get(&fd).cloned() else {
         return -EBADF;
     };
+    // The fd was not opened for reading: read(2) fails with EBADF.
+    if fs.read_denied_fds.contains(&fd) {
+        return -EBADF;
+    }
 
     // O_DIRECT: enforce ptr/offset/len alignment, mirroring
     // shim::std::fs::File::read_at_internal. Real io_uring on a
@@ -306,6 +310,10 @@ fn exec_write(
     let Some(path) = fs.open_handles.get(&fd).cloned() else {
         return -EBADF;
     };
+    // The fd was not opened for writing: write(2) fails with EBADF.
+    if fs.write_denied_fds.contains(&fd) {
+        return -EBADF;
+    }
 
     // O_DIRECT alignment, see exec_read for the rationale.
     if fs.direct_io_fds.contains(&fd) && !direct_io_aligned(fs, ptr as usize, offset, len) {
